@@ -79,6 +79,28 @@ func h4(beh string, tag byte) handler.Handler4 {
 		add := func(d *dhcpv4.DHCPv4, base []byte) {
 			d.UpdateOption(dhcpv4.OptGeneric(dhcpv4.GenericOptionCode(trail4), append(base, tag)))
 		}
+		if beh == "nil" {
+			// no response and no stop: the chain goes on, later handlers see a nil response
+			return nil, false
+		}
+		if resp == nil {
+			// a predecessor returned nil without stopping: only the replacing behaviours have
+			// something to return, the others hand the nil on (with their own stop flag)
+			switch beh {
+			case "replace", "replacestop":
+				n, _ := dhcpv4.New()
+				n.OpCode = dhcpv4.OpcodeBootReply
+				n.TransactionID = req.TransactionID
+				n.ClientHWAddr = req.ClientHWAddr
+				n.Flags = 0x8000
+				n.UpdateOption(dhcpv4.OptMessageType(dhcpv4.MessageTypeOffer))
+				add(n, nil)
+				return n, beh == "replacestop"
+			case "slow":
+				verifsched.Advance(time.Hour)
+			}
+			return nil, beh == "stop" || beh == "stopnil"
+		}
 		switch beh {
 		case "pass":
 			return resp, false
@@ -134,6 +156,22 @@ func h6(beh string, tag byte) handler.Handler6 {
 		}()
 		add := func(d dhcpv6.DHCPv6, base []byte) {
 			d.UpdateOption(&dhcpv6.OptionGeneric{OptionCode: dhcpv6.OptionCode(trail6), OptionData: append(base, tag)})
+		}
+		if beh == "nil" {
+			return nil, false
+		}
+		if resp == nil {
+			switch beh {
+			case "replace", "replacestop":
+				q := req.(*dhcpv6.Message)
+				n := &dhcpv6.Message{MessageType: dhcpv6.MessageTypeAdvertise, TransactionID: q.TransactionID}
+				n.AddOption(q.GetOneOption(dhcpv6.OptionClientID))
+				add(n, nil)
+				return n, beh == "replacestop"
+			case "slow":
+				verifsched.Advance(time.Hour)
+			}
+			return nil, beh == "stop" || beh == "stopnil"
 		}
 		switch beh {
 		case "pass":
@@ -319,17 +357,25 @@ func eval(r *ev.Run, c Case) {
 	// reference interpreter
 	var expCalls []byte
 	var expTrail []byte
-	sent := true
+	sent := true // false while the response in hand is nil
 	for i, it := range want {
 		expCalls = append(expCalls, wantTags[i])
 		stop := false
-		switch it.Beh {
-		case "modify", "replace", "slow":
+		switch {
+		case it.Beh == "nil":
+			sent, expTrail = false, nil
+		case !sent && (it.Beh == "replace" || it.Beh == "replacestop"):
+			// a fresh response after a nil one
+			sent, expTrail = true, []byte{wantTags[i]}
+			stop = it.Beh == "replacestop"
+		case !sent:
+			stop = it.Beh == "stop" || it.Beh == "stopnil"
+		case it.Beh == "modify" || it.Beh == "replace" || it.Beh == "slow":
 			expTrail = append(expTrail, wantTags[i])
-		case "stop", "replacestop":
+		case it.Beh == "stop" || it.Beh == "replacestop":
 			expTrail = append(expTrail, wantTags[i])
 			stop = true
-		case "stopnil":
+		case it.Beh == "stopnil":
 			sent, stop = false, true
 		}
 		if stop {
@@ -396,14 +442,14 @@ func eval(r *ev.Run, c Case) {
 	class += fmt.Sprintf("/calls=%d/sent=%v", len(gotCalls), sent)
 }
 
-var behs = []string{"pass", "modify", "replace", "stop", "replacestop", "stopnil", "slow"}
+var behs = []string{"pass", "modify", "replace", "stop", "replacestop", "stopnil", "slow", "nil"}
 
 func run(r *ev.Run) {
 	maxLen := 4
 	if !r.Quick() {
 		maxLen = 5
 	}
-	r.Rule(fmt.Sprintf("E3: all chains of length 0..%d over 7 handler behaviours {pass,modify,replace,stop,replace+stop,stop-with-nil,modify after an hour of (virtual) processing time} x protocol {4,6}, built through plugins.LoadPlugins and run through HandleMsg4/6; the same chains up to length %d loaded from generated YAML through config.Load; all placements of v4-only/v6-only/dual/unknown/failing-setup plugins in chains of length <=3; a synthetic plugin registered under the name of each of the 15 built-in plugins at every position of a 3-chain. Reference interpreter from the property text. Class = proto/len/yaml/#calls/sent.", maxLen, map[bool]int{true: 2, false: 5}[r.Quick()]))
+	r.Rule(fmt.Sprintf("E3: all chains of length 0..%d over 8 handler behaviours {pass,modify,replace,stop,replace+stop,stop-with-nil,modify after an hour of (virtual) processing time, nil-without-stop (the chain goes on; a later handler may build a fresh response)} x protocol {4,6}, built through plugins.LoadPlugins and run through HandleMsg4/6; the same chains up to length %d loaded from generated YAML through config.Load; all placements of v4-only/v6-only/dual/unknown/failing-setup plugins in chains of length <=3; a synthetic plugin registered under the name of each of the 15 built-in plugins at every position of a 3-chain. Reference interpreter from the property text. Class = proto/len/yaml/#calls/sent.", maxLen, map[bool]int{true: 2, false: 5}[r.Quick()]))
 	r.Assume("server.Start is executed only in the loopback binding run (one listener per protocol); multicast/interface-bound listeners are not opened")
 	var rec func(prefix []Item, n int, f func([]Item))
 	rec = func(prefix []Item, n int, f func([]Item)) {
